@@ -61,11 +61,107 @@ Theorem C20_encode_no_duplicates : forall q, query_normal q = true -> no_dup_key
 Proof. exact encode_no_duplicates. Qed.
 Print Assumptions C20_encode_no_duplicates.
 
-(* a tree that is not of the shape of an introspection result is an error.  PARTIAL: proved for the
-   outermost two levels only (exactly one __schema; inside it exactly one queryType, arrays types
-   and directives, or the positional array forms); the full statement "decode_query j = Some q ->
-   every level of j has the member shape of its struct" is not proved; the deeper levels are
-   covered by the closed examples of C20_proofs.v and by the correspondence run (shape mutations) *)
-Theorem C20_shape_partial : forall j q, decode_query j = Some q -> has_shape j = true.
+(* the outermost two levels of the shape (kept; the statement for EVERY level, in both directions, is
+   C20_decode_iff_shape below) *)
+Theorem C20_shape_outermost : forall j q, decode_query j = Some q -> has_shape j = true.
 Proof. exact shape. Qed.
-Print Assumptions C20_shape_partial.
+Print Assumptions C20_shape_outermost.
+
+(* ---- additions to properties/C20.v (after the existing theorems) ---- *)
+From GTP Require Import C20_shape_proofs.
+
+(* A tree is accepted EXACTLY when it has the shape of an introspection result at every level.
+   [full_shape] = [conforms query_ty]: [query_ty] transcribes the Rust declarations (members,
+   which are Option, Vec, tagged enums, type references) and [conforms] says what serde accepts
+   for each kind of type (see proofs/C20_shape_proofs.v; neither mentions the decoder).
+   Replaces C20_shape_partial: all levels, both directions, including the positional array forms
+   and the integer tags inside buffered content. *)
+Theorem C20_decode_iff_shape : forall j, (exists q, decode_query j = Some q) <-> full_shape j = true.
+Proof. exact decode_iff_shape. Qed.
+Print Assumptions C20_decode_iff_shape.
+
+Theorem C20_not_shape_error : forall j, full_shape j = false -> decode_query j = None.
+Proof. exact not_shape_error. Qed.
+Print Assumptions C20_not_shape_error.
+
+(* the shape holds at every typed position of an accepted tree ([at_pos t j t' j']: reading j as
+   a t descends into the subtree j', read as a t') ... *)
+Theorem C20_shape_everywhere : forall j q t' j',
+  decode_query j = Some q -> at_pos query_ty j t' j' -> conforms t' j' = true.
+Proof. intros j q t' j' H P. exact (conforms_at _ _ _ _ P (decode_shape _ _ H)). Qed.
+Print Assumptions C20_shape_everywhere.
+
+(* ... hence the five kinds of error the property lists, at ANY struct position (ms: the members
+   of the struct read there, es: the members of the object found there) *)
+Theorem C20_reject_missing : forall j ms es, at_pos query_ty j (JTStruct ms) (JObj es) ->
+  forall k t, In (k, (Req, t)) ms -> has_key k es = false -> decode_query j = None.
+Proof. exact reject_missing. Qed.
+Print Assumptions C20_reject_missing.
+
+Theorem C20_reject_null : forall j ms es, at_pos query_ty j (JTStruct ms) (JObj es) ->
+  forall k t, In (k, (Req, t)) ms -> t <> JTValue -> In (k, JNull) es -> decode_query j = None.
+Proof. exact reject_null. Qed.
+Print Assumptions C20_reject_null.
+
+Theorem C20_reject_wrong_type : forall j ms es, at_pos query_ty j (JTStruct ms) (JObj es) ->
+  forall k pr t v, In (k, (pr, t)) ms -> In (k, v) es -> (pr = Opt -> v <> JNull) ->
+  json_type_ok t v = false -> decode_query j = None.
+Proof. exact reject_wrong_type. Qed.
+Print Assumptions C20_reject_wrong_type.
+
+Theorem C20_reject_unknown_kind : forall j b vs es tag,
+  at_pos query_ty j (JTEnum b vs) (JObj es) -> In ("kind"%string, JStr tag) es ->
+  variant_members vs tag = None -> decode_query j = None.
+Proof. exact reject_unknown_kind. Qed.
+Print Assumptions C20_reject_unknown_kind.
+
+Theorem C20_reject_unknown_kind_ref : forall j b vs es tag,
+  at_pos query_ty j (JTRef vs b) (JObj es) -> In ("kind"%string, JStr tag) es ->
+  mem_string tag vs = false -> decode_query j = None.
+Proof. exact reject_unknown_kind_ref. Qed.
+Print Assumptions C20_reject_unknown_kind_ref.
+
+Theorem C20_reject_kind_count : forall j t es,
+  at_pos query_ty j t (JObj es) -> (exists b vs, t = JTEnum b vs) \/ (exists vs b, t = JTRef vs b) ->
+  count_key "kind" es <> 1 -> decode_query j = None.
+Proof. exact reject_kind_count. Qed.
+Print Assumptions C20_reject_kind_count.
+
+Theorem C20_reject_duplicate : forall j ms es, at_pos query_ty j (JTStruct ms) (JObj es) ->
+  forall k pr t es1 v1 es2 v2 es3, In (k, (pr, t)) ms ->
+  es = (es1 ++ (k, v1) :: es2 ++ (k, v2) :: es3)%list -> decode_query j = None.
+Proof. exact reject_duplicate. Qed.
+Print Assumptions C20_reject_duplicate.
+
+(* ---- "Unknown extra members and the order of members do not matter" ---- *)
+From GTP Require Import C20_invariance_proofs.
+
+(* [jsim t j j'] (proofs/C20_invariance_proofs.v): at every position read as a struct / tagged enum /
+   type reference, j and j' have the same KNOWN members up to order (unknown ones may be added,
+   removed, repeated, changed), with similar values; vectors element-wise; positional forms
+   element-wise; a default value (serde_json::Value) only to itself.
+   _partial: (a) the relation is typed by the Rust declarations, not the plain "Permutation at every
+   level" on untyped trees (that statement is false: C20_value_order_matters); (b) for default values
+   nothing is claimed beyond identity. *)
+Theorem C20_invariance_partial : forall j j', jsim query_ty j j' -> decode_query j = decode_query j'.
+Proof. exact decode_invariant. Qed.
+Print Assumptions C20_invariance_partial.
+
+(* how similar trees arise: members permuted / an unknown member inserted, at a struct position
+   (the analogous rules for tagged enums and type references: sim_enum_perm, sim_enum_insert,
+   sim_ref_wrapper_perm, sim_ref_wrapper_insert, sim_ref_named_permute, sim_ref_named_insert; to go
+   down: sim_struct_member, sim_vec_elem, sim_enum_member, sim_ref_oftype) *)
+Theorem C20_sim_permute : forall ms es es', Permutation.Permutation es es' -> jsim (JTStruct ms) (JObj es) (JObj es').
+Proof. exact sim_struct_permute. Qed.
+Print Assumptions C20_sim_permute.
+Theorem C20_sim_insert : forall ms l1 l2 k v,
+  mem_string k (map fst ms) = false -> jsim (JTStruct ms) (JObj (l1 ++ l2)) (JObj (l1 ++ (k, v) :: l2)).
+Proof. exact sim_struct_insert. Qed.
+Print Assumptions C20_sim_insert.
+
+(* the order of the members of a default VALUE is visible in the model (a JSON tree compared with =) *)
+Theorem C20_value_order_matters :
+  decode_query (with_default (JObj [("a"%string, JNum 1); ("b"%string, JNum 2)])) <>
+  decode_query (with_default (JObj [("b"%string, JNum 2); ("a"%string, JNum 1)])).
+Proof. exact value_order_matters. Qed.
+Print Assumptions C20_value_order_matters.
